@@ -3,7 +3,7 @@ from harness import core
 from props import merge_common as mc
 
 QUICK = [
-    ("switch_latest cold/sync", dict(Ops={"switch_latest"}, Tabs={"plain", "short", "error"}, Flavours={"cold", "sync"})),
+    ("switch_latest cold/sync", dict(Ops={"switch_latest"}, Tabs={"plain", "short", "error"}, Flavours={"cold", "sync"}, OTermTimes={2, 3, 5})),
     ("mapped operators + raising mappers", dict(Ops={"switch_map", "switch_map_indexed", "flat_map_latest"}, Tabs={"error"},
                                                 Flavours={"cold"}, Faults=True, MaxOuter=2, OTermTimes={2, 3, 5})),
     ("hot inners; never-ending inners", dict(Ops={"switch_latest"}, Tabs={"pair", "never"}, Flavours={"hot"}, OTermTimes={2, 5})),
@@ -17,25 +17,26 @@ QUICK = [
 ]
 
 THOROUGH = [
-    ("switch_latest", dict(Ops={"switch_latest"}, Tabs={"plain", "short", "error", "never"}, Flavours={"cold", "sync", "hot"}, RG=False)),
+    ("switch_latest", dict(Ops={"switch_latest"}, Tabs={"plain", "short", "error", "never"}, Flavours={"cold", "sync"}, RG=False)),
+    ("switch_latest hot", dict(Ops={"switch_latest"}, Tabs={"pair", "error"}, Flavours={"hot"})),
     ("long table, 4 inners", dict(Ops={"switch_latest"}, Tabs={"long"}, Flavours={"cold", "sync"}, MaxOuter=4, OTimes={1, 2, 4},
                                  OTermTimes={2, 4, 9})),
-    ("mapped + every mapper table", dict(Ops={"switch_map", "switch_map_indexed", "flat_map_latest"}, Tabs={"plain", "error"},
+    ("mapped + every mapper table", dict(Ops={"switch_map", "switch_map_indexed", "flat_map_latest"}, Tabs={"error"},
                                          Flavours={"cold", "sync"}, Faults=True, FAll=True, MaxOuter=2)),
-    ("mapped + faults", dict(Ops={"switch_map", "switch_map_indexed", "flat_map_latest"}, Tabs={"plain", "short", "never"},
+    ("mapped + faults", dict(Ops={"switch_map", "switch_map_indexed", "flat_map_latest"}, Tabs={"plain", "never"},
                              Flavours={"cold", "sync"}, Faults=True)),
-    ("dispose instants", dict(Ops={"switch_latest", "switch_map"}, Tabs={"plain", "error", "never"}, Flavours={"cold", "sync"},
+    ("dispose instants", dict(Ops={"switch_latest", "switch_map"}, Tabs={"plain", "error"}, Flavours={"cold", "sync"},
                               DspTicks={0, 1, 2, 3, 4, 5}, OTermTimes={2, 5})),
     ("outer events at the subscription instant", dict(Ops={"switch_latest", "flat_map_latest"}, Tabs={"short", "error"},
                                                       Flavours={"cold", "sync"}, OTimes={0, 1, 2}, OTermTimes={0, 1, 3})),
     ("generated tables", dict(Ops={"switch_latest"}, Tabs={"gen"}, Flavours={"cold", "sync"}, MaxOuter=3, OTimes={1, 2},
-                              OTermTimes={1, 2, 4}, GenN=2, GenLen=2, GenTimes={0, 1, 2})),
-    ("exclusive (growth)", dict(Ops={"exclusive"}, Tabs={"plain", "short", "error", "never"}, Flavours={"cold", "sync", "hot"}, RG=False)),
+                              OTermTimes={1, 2, 4}, GenN=2, GenLen=2, GenTimes={0, 1})),
+    ("exclusive (growth)", dict(Ops={"exclusive"}, Tabs={"plain", "error", "never"}, Flavours={"cold", "sync", "hot"})),
     ("cut by take(k) in the middle of a notification",
-     dict(Ops={"switch_latest", "switch_map", "exclusive"}, Tabs={"short", "plain", "error"}, Flavours={"sync", "cold"}, RG=False,
-          OTimes={0, 1, 2}, OTermTimes={2, 5}, OTerms={"C", "U"}, Takes={1, 2, 3})),
+     dict(Ops={"switch_latest", "switch_map", "exclusive"}, Tabs={"short", "error"}, Flavours={"sync", "cold"}, RG=False,
+          OTimes={0, 1, 2}, OTermTimes={2, 5}, OTerms={"C", "U"}, Takes={1, 2})),
     ("mapper returning a list", dict(Ops={"switch_map", "switch_map_indexed", "flat_map_latest"}, Tabs={"zero"}, Flavours={"cold"},
-                                     RG=False, Faults=True)),
+                                     Faults=True)),
 ]
 SIM = ("simulate: generated tables, 3 inners",
        dict(Ops={"switch_latest", "switch_map", "switch_map_indexed", "flat_map_latest", "exclusive"}, Tabs={"gen"},
@@ -52,7 +53,7 @@ def run(tier):
     ck.note("scenarios_exhaustive", len(groups))
     ck.note("scenarios_with_tie_choice", sum(1 for g in groups if len(g[1]) > 1))
     if tier != "quick":
-        sim = mc.export_runs(ck, [(SIM[0], SIM[1], (150000, 40, ck.seed + 12))], par=1, named=True, timeout=2400)
+        sim = mc.export_runs(ck, [(SIM[0], SIM[1], (60000, 40, ck.seed + 12))], par=1, named=True, timeout=2400)
         det = mc.deterministic_only(sim)
         ck.note("simulated_scenarios", len(sim))
         ck.note("simulated_scenarios_tie_free_compared", len(det))
